@@ -182,3 +182,29 @@ func TestVerifReplayListIndexesMissing(t *testing.T) {
 		t.Fatal("ListIndexes on a missing collection")
 	}
 }
+
+// The stored counter behind a criteria-less Count follows the document keys (C06, C09): deleting an id
+// that is not there leaves it alone.
+func TestVerifReplayDeleteAbsent(t *testing.T) {
+	db, err := Open(t.TempDir())
+	if err != nil {
+		t.Fatal(err)
+	}
+	defer db.Close()
+	db.CreateCollection("c")
+	for i := 0; i < 3; i++ {
+		doc := d.NewDocument()
+		doc.Set("x", i)
+		if _, err := db.InsertOne("c", doc); err != nil {
+			t.Fatal(err)
+		}
+	}
+	err = db.DeleteById("c", "0d8b1f0c-5b0e-4b57-9d3e-2f6f3f1d7a11")
+	n, _ := db.Count(query.NewQuery("c"))
+	all, _ := db.FindAll(query.NewQuery("c"))
+	if n != len(all) {
+		fmt.Printf("REPLAY FAIL scenario: 3 documents, DeleteById of an absent id (result %v): Count = %d, FindAll returns %d documents\n", err, n, len(all))
+		t.Fatal("DeleteById of an absent id changes the stored size")
+	}
+	fmt.Printf("REPLAY PASS scenario: 3 documents, DeleteById of an absent id (result %v): Count = %d = len(FindAll)\n", err, n)
+}
